@@ -4,9 +4,11 @@ Explicit-state BFS over histories of the real dd.bdd.BDD (DESIGN 2/C06).
 """
 import time
 
-from .. import run
+from .. import run, sweep, state as S, oracle as O
 from ..explore import bfs
 from ..machines import BddMachine
+from ..oracle import Violation
+from ..ref import Universe
 
 PROP = 'C06'
 
@@ -45,6 +47,105 @@ def machines(tier):
     return out
 
 
+def _big_base(k):
+    """k pairs a_i, b_i in the order a* b* (level pairs holding 2**(k-1) nodes): two large
+    functions, one held twice and one once, plus unreferenced garbage."""
+    a = ['a%d' % i for i in range(k)]
+    bb = ['b%d' % i for i in range(k)]
+    names = tuple(a + bb)
+    U = Universe(names)
+    f = g = 0
+    for i in range(k):
+        f |= U.var(a[i]) & U.var(bb[i])
+        g ^= U.var(a[i]) & U.var(bb[(i + 1) % k])
+    m = S.new_bdd({v: i for i, v in enumerate(names)})
+    b = sweep.Builder(m, U)
+    rf, rg = b.verified(f), b.verified(g)
+    m.incref(rf)
+    m.incref(rf)
+    m.incref(rg)
+    b(U.var(a[0]) ^ U.var(bb[-1]))
+    b(f & g)                                    # large unreferenced garbage
+    return m, U, names, (rf, f), (rg, g)
+
+
+def task_big(t):
+    """Histories of length 1-3 on a LARGE manager (k = 7: ~1 000 nodes; k = 10: ~7 000 nodes):
+    every adjacent swap, followed by every continuation of a small menu; exact counts, stored
+    == reachable after collection, denotations of held references."""
+    _, k, si, ns, focus = t
+    rep = run.Report()
+    rec = sweep.Rec(rep)
+    base, U, names, (rf, f), (rg, g) = _big_base(k)
+    conts = ('none', 'collect', 'release-g', 'release-f-once', 'swap-back', 'swap-next',
+             'collect-roots-g')
+    levels = sweep.shard(list(range(len(names) - 1)), ns)[si]
+    for l in levels:
+        for cont in conts:
+            if focus is not None and sweep.norm([l, cont]) != sweep.norm(focus):
+                continue
+            case = dict(task=t[:-1] + ([l, cont],), level=l, then=cont)
+            try:
+                m = S.clone(base)
+                ext = {abs(rf): 2}
+                ext[abs(rg)] = ext.get(abs(rg), 0) + 1
+                held = [(rf, f), (rg, g)]
+                m.swap(l, l + 1)
+                O.check(m, ext, None, semantic=False)
+                collected = False
+                if cont == 'collect':
+                    m.collect_garbage()
+                    collected = True
+                elif cont == 'release-g':
+                    m.decref(rg)
+                    ext[abs(rg)] -= 1
+                    held = [(rf, f)] if abs(rg) != abs(rf) else held
+                    m.collect_garbage()
+                    collected = True
+                elif cont == 'release-f-once':
+                    m.decref(rf)
+                    ext[abs(rf)] -= 1
+                    m.collect_garbage()
+                    collected = True
+                elif cont == 'swap-back':
+                    m.swap(l, l + 1)
+                elif cont == 'swap-next' and l + 2 < len(names):
+                    m.swap(l + 1, l + 2)
+                elif cont == 'collect-roots-g':
+                    # rooted collection: only what hangs below g and is unreferenced may go
+                    m.collect_garbage([abs(rg)])
+                ext = {u_: c for u_, c in ext.items() if c}
+                O.check(m, ext, None, semantic=False)
+                if collected:
+                    live = O.reachable(m, [r for r, _ in held])
+                    if set(m._succ) != live:
+                        raise Violation('after collect_garbage() the stored nodes are not '
+                                        'exactly those reachable from held references',
+                                        extra=len(set(m._succ) - live),
+                                        missing=len(live - set(m._succ)))
+                den = O.Den(m, U)
+                for r, fn_ in held:
+                    if den(r) != fn_:
+                        raise Violation('a held reference changed denotation (large manager)')
+                rep.add('evaluations')
+                rep.add('nontrivial')
+                rep.max('big_nodes', len(base))
+            except Violation as e:
+                rec('big:' + e.what, e.what, case, **e.detail)
+            except Exception as e:  # noqa
+                rec('big-exception:' + type(e).__name__, 'raised %r' % (e,), case)
+    if si == 0 and focus is None:
+        rep.sample(dict(kind='large manager', variables=len(names), nodes=len(base),
+                        continuations=list(conts)))
+    return rep
+
+
+def big_plan(tier):
+    ts = [('big', 7, 0, 1, None)]
+    ts += [('big', 10, si, 8, None) for si in range(8)]
+    return ts
+
+
 def _mach(case):
     for tier in ('thorough', 'quick'):
         for m, _ in machines(tier):
@@ -54,12 +155,16 @@ def _mach(case):
 
 
 def replay(case):
+    if 'task' in case:
+        return sweep.replay_by_task(task_big)(case)
     m = BddMachine(tuple(case['names']), max_handles=9, max_ext=9, with_sort=True)
     return m.replay(case)
 
 
 def main(tier, t0):
     rep = run.Report()
+    run.pmerge(task_big, big_plan(tier), rep)
+    run.close_pool()
     total = dict(states=0, transitions=0, validated=0)
     layers = {}
     for mach, depth in machines(tier):
@@ -81,6 +186,11 @@ def main(tier, t0):
     cov = dict(
         states=total['states'], transitions=total['transitions'],
         traces_validated_against_impl=total['validated'],
+        evaluations=rep.counts.get('evaluations', 0),
+        large_manager=('additionally, on managers with ~1 000 and ~7 000 nodes (14 and 20 '
+                       'variables): every adjacent swap followed by every continuation of a '
+                       'seven-item menu (collections, releases, further swaps), same oracle '
+                       'without the pairwise semantic comparison'),
         exhaustive=not rep.caps,
         bounds=layers,
         explanation=(
